@@ -122,6 +122,10 @@ class Model:
 
     def __init__(self, spec):
         self.spec = json.loads(json.dumps(spec))
+        for n in self.spec["nodes"]:
+            for eo in n.get("extra_opts", []):
+                if isinstance(eo["default"], list):      # keep tuple-valued option defaults tuples
+                    eo["default"] = tuple(eo["default"])
         self.config = {}
         self.counter = {}
 
